@@ -21,7 +21,9 @@ import json
 
 PROPERTY = "C17"
 RULE = ("stream cases = random selection under the subscription field (depth<=2: leaf/object/list fields, sync and async field "
-        "resolvers) x event list of length 0..6 (per event: which paths raise ResolverError, which objects are null, list lengths; "
+        "resolvers, interface- and union-typed payloads whose implementations Dog/Cat declare the same fields with different argument "
+        "defaults, nested and in lists, the runtime type changing between events and inside one event) x stream driven by `async for` | "
+        "bare __anext__() pulls | __aiter__() calls interleaved mid-stream | aclose() where offered x event list of length 0..6 (per event: which paths raise ResolverError, which objects are null, list lengths; "
         "the root field itself may fail) x sync|async subscription resolver x iterator class|async generator source x "
         "per-event delays (loop spins before the gate opens) x inline|thread-offloaded blocking resolvers; refusal cases = every "
         "documented refusal x runtimes x (separate root types | ONE object type shared by subscription, query and mutation roots | by "
@@ -61,15 +63,45 @@ EXPECTED_EXC = {
 LEAF = ("a", "ad", "bad", "badd")
 OBJ = ("o", "od")
 LST = ("l",)
+# abstract-typed payloads: `pet: Animal` (interface), `petu: Pet` (union, selected through `... on Animal`); Dog and Cat implement
+# Animal and declare the SAME fields with DIFFERENT argument defaults: voice(loud: Boolean = true|false), vol(n: Int = 1|2)
+APET = ("pet", "petu")
+ALEAF = ("voice", "voicet", "vol")       # voicet = voice(loud: true)
+AOBJ = ("pal",)
+ALST = ("pals",)
+SPECIES = ("Dog", "Cat")
+DRIVES = ("async-for", "anext", "anext-aiter-mid", "aclose-mid")
+
+
+def animal_value(species, f):
+    """what Dog/Cat resolvers return when the argument is left to ITS OWN type's default (voicet: loud given as true)"""
+    base = {"Dog": 10, "Cat": 20}[species]
+    if f == "voice":
+        return base + (1 if species == "Dog" else 0)      # Dog.voice(loud = true), Cat.voice(loud = false)
+    if f == "voicet":
+        return base + 1
+    return 100 * (1 if species == "Dog" else 2) + base       # Dog.vol(n = 1), Cat.vol(n = 2)
 
 
 # ---------------------------------------------------------------------------------------------
-def gen_sel(rng, depth, counter):
+def gen_sel(rng, depth, counter, ctx="evt", animals=0.25):
     out = []
     for _ in range(rng.randint(1, 3)):
-        if depth > 0 and rng.random() < 0.4:
+        if ctx == "animal":
+            if depth > 0 and rng.random() < 0.35:
+                f = rng.choice(AOBJ + ALST)
+                sel = gen_sel(rng, depth - 1, counter, "animal")
+            else:
+                f = rng.choice(ALEAF)
+                sel = []
+        elif rng.random() < animals:
+            f = rng.choice(APET)
+            sel = gen_sel(rng, max(depth - 1, 0) if depth else 0, counter, "animal")
+            if depth == 0:
+                sel = [t for t in sel if t["f"] in ALEAF] or [{"k": "kv%d" % counter[0], "f": "voice", "sel": []}]
+        elif depth > 0 and rng.random() < 0.4:
             f = rng.choice(OBJ + LST)
-            sel = gen_sel(rng, depth - 1, counter)
+            sel = gen_sel(rng, depth - 1, counter, "evt", animals)
         else:
             f = rng.choice(LEAF)
             sel = []
@@ -78,42 +110,39 @@ def gen_sel(rng, depth, counter):
     return out
 
 
-def sel_paths(sel, prefix, lens, out):
-    """all concrete response paths (with list indices, per `lens`) of a selection instance"""
+def walk_event(sel, prefix, ev, out, rng=None):
+    """all concrete response paths (with list indices) of a selection instance; with `rng`: also draws list lengths / species"""
     for t in sel:
         p = prefix + (t["k"],)
-        out.append((p, t["f"]))
-        if t["f"] in OBJ:
-            sel_paths(t["sel"], p, lens, out)
-        elif t["f"] in LST:
-            for i in range(lens.get("/".join(map(str, p)), 1)):
-                sel_paths(t["sel"], p + (i,), lens, out)
+        ps = "/".join(map(str, p))
+        f = t["f"]
+        out.append((p, f))
+        if f in OBJ:
+            walk_event(t["sel"], p, ev, out, rng)
+        elif f in APET + AOBJ:
+            if rng is not None:
+                ev["species"][ps] = rng.choice(SPECIES)
+            walk_event(t["sel"], p, ev, out, rng)
+        elif f in LST + ALST:
+            if rng is not None:
+                ev["len"][ps] = rng.choice([0, 1, 2] if f in LST else [0, 1, 2, 3])
+            for i in range(ev["len"].get(ps, 1)):
+                if f in ALST and rng is not None:
+                    ev["species"]["%s/%d" % (ps, i)] = rng.choice(SPECIES)
+                walk_event(t["sel"], p + (i,), ev, out, rng)
 
 
 def gen_event(rng, ident, sel, perr):
-    lens = {}
-    ev = {"id": ident, "val": rng.randint(0, 99), "fail": [], "null": [], "len": lens}
-    # list lengths first (paths depend on them)
-    def assign_lens(s, prefix):
-        for t in s:
-            p = prefix + (t["k"],)
-            if t["f"] in LST:
-                n = rng.choice([0, 1, 2])
-                lens["/".join(map(str, p))] = n
-                for i in range(n):
-                    assign_lens(t["sel"], p + (i,))
-            elif t["f"] in OBJ:
-                assign_lens(t["sel"], p)
-    assign_lens(sel, ("root",))
+    ev = {"id": ident, "val": rng.randint(0, 99), "fail": [], "null": [], "len": {}, "species": {}}
     paths = []
-    sel_paths(sel, ("root",), lens, paths)
+    walk_event(sel, ("root",), ev, paths, rng)
     for p, f in paths:
         ps = "/".join(map(str, p))
         if f in ("bad", "badd") and rng.random() < max(perr, 0.3):
             ev["fail"].append(ps)
         elif rng.random() < perr * 0.5:
             ev["fail"].append(ps)
-        elif f in OBJ + LST and rng.random() < 0.1:
+        elif f in OBJ + LST + APET + AOBJ + ALST and rng.random() < 0.1:
             ev["null"].append(ps)
     if rng.random() < perr * 0.3:
         ev["fail"].append("root")
@@ -189,7 +218,7 @@ def gen_case(rng):
         sel = gen_sel(rng, 1, counter)
         case = {"kind": "refusal", "refusal": r, "async_sub": rng.random() < 0.5,
                 "source": rng.choice(["iter", "agen"]), "threads": False, "sel": sel,
-                "events": [gen_event(rng, 0, [], 0.0)], "delays": [0, 0]}
+                "events": [gen_event(rng, 0, sel, 0.0)], "delays": [0, 0]}
         if r == "mutation-op":
             case["shared_root"] = rng.choice([None, "all"])
         else:
@@ -209,16 +238,25 @@ def gen_case(rng):
         case["root"] = gen_root(rng, "single", sel)
     if rng.random() < 0.25:
         case["shared_root"] = rng.choice(["all", "query"])
+    case["drive"] = rng.choice(DRIVES)
     return case
 
 
 def render_sel(sel):
     parts = []
     for t in sel:
+        f = t["f"]
         sub = ""
-        if t["f"] in OBJ + LST:
-            sub = " { %s }" % (render_sel(t["sel"]) if t["sel"] else "zz: a")
-        parts.append("%s: %s%s" % (t["k"], t["f"], sub))
+        name = f
+        if f in OBJ + LST + AOBJ + ALST:
+            sub = " { %s }" % (render_sel(t["sel"]) if t["sel"] else ("zz: a" if f in OBJ + LST else "zz: voice"))
+        elif f == "pet":
+            sub = " { %s }" % render_sel(t["sel"])
+        elif f == "petu":      # a union: its fields are reached through ONE fragment on the interface (one field node for Dog and Cat)
+            sub = " { ... on Animal { %s } }" % render_sel(t["sel"])
+        elif f == "voicet":
+            name = "voice(loud: true)"
+        parts.append("%s: %s%s" % (t["k"], name, sub))
     return " ".join(parts)
 
 
@@ -372,12 +410,60 @@ def schemas(mode):
                 return value(root, info, name)
         return r
 
+    from py_gql.schema import Boolean, InterfaceType, UnionType
+
+    def animal(root, info, name):
+        """root = an animal value {"__typename__", "ev"}; outcomes are looked up in the event like everywhere else"""
+        ev = root["ev"]
+        ps = outcome(ev, info)
+        if ps in ev["null"]:
+            return None
+        if name == "pal":
+            return {"__typename__": ev["species"][ps], "ev": ev}
+        return [{"__typename__": ev["species"]["%s/%d" % (ps, i)], "ev": ev} for i in range(ev["len"].get(ps, 1))]
+
+    def voice(root, ctx, info, loud):
+        outcome(root["ev"], info)
+        return {"Dog": 10, "Cat": 20}[root["__typename__"]] + (1 if loud else 0)
+
+    def vol(root, ctx, info, n):
+        outcome(root["ev"], info)
+        return 100 * n + {"Dog": 10, "Cat": 20}[root["__typename__"]]
+
     def build():
         ref = [None]
+        aref = [None]
+
+        def animal_fields(loud_default, n_default):
+            def fs():
+                kw = {} if loud_default is None else {"default_value": loud_default}
+                kn = {} if n_default is None else {"default_value": n_default}
+                res = {} if loud_default is None else {
+                    "voice": voice, "vol": vol,
+                    "pal": lambda root, ctx, info: animal(root, info, "pal"),
+                    "pals": lambda root, ctx, info: animal(root, info, "pals")}
+                return [
+                    Field("voice", Int, args=[Argument("loud", Boolean, **kw)], resolver=res.get("voice")),
+                    Field("vol", Int, args=[Argument("n", Int, **kn)], resolver=res.get("vol")),
+                    Field("pal", lambda: aref[0], resolver=res.get("pal")),
+                    Field("pals", lambda: ListType(aref[0]), resolver=res.get("pals")),
+                ]
+            return fs
+        Animal = InterfaceType("Animal", animal_fields(None, None))
+        aref[0] = Animal
+        Dog = ObjectType("Dog", animal_fields(True, 1), interfaces=[Animal])
+        Cat = ObjectType("Cat", animal_fields(False, 2), interfaces=[Animal])
+        Pet = UnionType("Pet", [Dog, Cat])
+
+        def pet(root, ctx, info):
+            ps = outcome(root, info)
+            if ps in root["null"]:
+                return None
+            return {"__typename__": root["species"][ps], "ev": root}
 
         def evt_fields():
             t = ref[0]
-            fs = []
+            fs = [Field("pet", Animal, resolver=pet), Field("petu", Pet, resolver=pet)]
             for name in LEAF:
                 fs.append(Field(name, Int, resolver=mk(name, mode == "async" and name.endswith("d"))))
             for name in OBJ:
@@ -410,19 +496,19 @@ def schemas(mode):
             Field("ev2", Evt, resolver=root_resolver, subscription_resolver=sub),
             Field("nosub", Evt, resolver=root_resolver),
         ])
-        return Evt, S
-    _, S1 = build()
-    _, S2 = build()
+        return [Dog, Cat], S
+    X1, S1 = build()
+    X2, S2 = build()
     Qd = ObjectType("Query", [Field("a", Int)])
     Md = ObjectType("Mutation", [Field("a", Int)])
-    sub_schema = Schema(query_type=Qd, mutation_type=Md, subscription_type=S1)
-    twin = Schema(query_type=S2)
+    sub_schema = Schema(query_type=Qd, mutation_type=Md, subscription_type=S1, types=X1)
+    twin = Schema(query_type=S2, types=X2)
     # ONE object type serving as subscription root AND query root AND mutation root
-    _, S3 = build()
-    shared = Schema(query_type=S3, mutation_type=S3, subscription_type=S3)
+    X3, S3 = build()
+    shared = Schema(query_type=S3, mutation_type=S3, subscription_type=S3, types=X3)
     # … and as subscription + query root only
-    _, S4 = build()
-    shared_q = Schema(query_type=S4, subscription_type=S4)
+    X4, S4 = build()
+    shared_q = Schema(query_type=S4, subscription_type=S4, types=X4)
     sub_schema.validate()
     twin.validate()
     shared.validate()
@@ -482,9 +568,30 @@ def run_real(case):
                 return
             results = []
 
+            drive = case.get("drive") or "async-for"
+            out["closed_after"] = None
+
             async def consume():
-                async for res in stream:
+                if drive == "async-for":
+                    async for res in stream:
+                        results.append(res)
+                    return
+                # the documented result is an async ITERATOR: bare `__anext__()` pulls, no `__aiter__()` first
+                it = stream
+                n = 0
+                while True:
+                    if drive == "anext-aiter-mid" and n % 2 == 1:
+                        it = it.__aiter__()            # must neither restart nor skip
+                    if drive == "aclose-mid" and n == max(1, len(case["events"]) // 2) and hasattr(it, "aclose"):
+                        await it.aclose()
+                        out["closed_after"] = n
+                        return
+                    try:
+                        res = await it.__anext__()
+                    except StopAsyncIteration:
+                        return
                     results.append(res)
+                    n += 1
             task = asyncio.ensure_future(consume())
             delays = list(case["delays"])
             opened = 0
@@ -551,7 +658,9 @@ def oracle(case, real):
     bad = []
     if real["err"]:
         k = real["err"].split(":")[0]
-        return [("%s:%s" % (k, case["kind"]), "subscription run failed: %s" % real["err"])]
+        drv = case.get("drive") or "async-for"
+        return [("%s:%s%s" % (real["err"] if k == "internal" else k, case["kind"], "" if drv == "async-for" else ":driven-by-" + drv),
+                 "subscription run failed: %s (stream driven by %s)" % (real["err"], drv))]
     if case["kind"] == "refusal":
         r = case["refusal"]
         if real["refused"] is None:
@@ -566,6 +675,14 @@ def oracle(case, real):
         return [("stream-refused:%s%s" % (real["refused"], spelling_class(case)), "a valid subscription was refused with %s" % real["refused"])]
     n = len(case["events"])
     got = real["results"]
+    if real.get("closed_after") is not None:
+        # the stream offered aclose() and was closed after j results: exactly the first j results, nothing pulled beyond j+1
+        j = real["closed_after"]
+        if len(got) != j:
+            return [("result-count:closed", "%d results before aclose() after %d pulls" % (len(got), j))]
+        n = j
+        case = dict(case, events=case["events"][:j])
+        real = dict(real, pulls=n + 1, ended=True) if real["pulls"] <= n + 1 else real
     if not real["ended"]:
         bad.append(("stream-not-ended", "response stream did not end with the source"))
     if len(got) != n:
@@ -613,7 +730,9 @@ def has_async_field(sel):
 # ---------------------------------------------------------------------------------------------
 def event_tree(case, ev):
     """abstract outcome tree of one event under the root selection (what Subscribe.lean executes)"""
-    def nodes(sel, prefix):
+    species = ev.get("species", {})
+
+    def nodes(sel, prefix, sp=None):
         out = []
         for t in sel:
             p = prefix + (t["k"],)
@@ -622,14 +741,23 @@ def event_tree(case, ev):
                 out.append({"k": t["k"], "o": "raise"})
                 continue
             f = t["f"]
+            dflt_evt = [{"k": "zz", "f": "a", "sel": []}]
+            dflt_animal = [{"k": "zz", "f": "voice", "sel": []}]
             if f in LEAF:
                 c = {"t": "leaf", "v": ev["val"]}
+            elif f in ALEAF:
+                c = {"t": "leaf", "v": animal_value(sp, f)}
             elif ps in ev["null"]:
                 c = {"t": "null"}
             elif f in OBJ:
-                c = {"t": "obj", "fs": nodes(t["sel"] or [{"k": "zz", "f": "a", "sel": []}], p)}
+                c = {"t": "obj", "fs": nodes(t["sel"] or dflt_evt, p)}
+            elif f in APET + AOBJ:
+                c = {"t": "obj", "fs": nodes(t["sel"] or dflt_animal, p, species[ps])}
+            elif f in ALST:
+                c = {"t": "list", "items": [{"t": "obj", "fs": nodes(t["sel"] or dflt_animal, p + (i,), species["%s/%d" % (ps, i)])}
+                                            for i in range(ev["len"].get(ps, 1))]}
             else:
-                c = {"t": "list", "items": [{"t": "obj", "fs": nodes(t["sel"] or [{"k": "zz", "f": "a", "sel": []}], p + (i,))}
+                c = {"t": "list", "items": [{"t": "obj", "fs": nodes(t["sel"] or dflt_evt, p + (i,))}
                                             for i in range(ev["len"].get(ps, 1))]}
             out.append({"k": t["k"], "o": "ret", "c": c})
         return out
@@ -751,6 +879,10 @@ def check_cases(ctx, cases):
         ctx.count()
         ctx.stat("kind=" + (case["refusal"] or "stream"))
         if case["kind"] == "stream":
+            ctx.stat("drive=" + (case.get("drive") or "async-for"))
+            if any(f in json.dumps(case["sel"]) for f in ('"pet"', '"petu"')):
+                ctx.stat("abstract_payload")
+        if case["kind"] == "stream":
             ctx.stat("events=%d" % len(case["events"]))
             ctx.stat("async_sub=%s" % case["async_sub"])
             ctx.stat("source=" + case["source"])
@@ -810,6 +942,29 @@ def exhaustive_cases():
             for a in (False, True):
                 out.append({"kind": "refusal", "refusal": r, "async_sub": a, "source": "iter", "threads": False, "sel": copy.deepcopy(sel),
                             "events": [{"id": 0, "val": 1, "fail": [], "null": [], "len": {}}], "delays": [0, 0], "shared_root": shared})
+    # abstract payloads: the runtime type changes between events (all Dog/Cat sequences of length 3) and inside one event (pals)
+    for via in APET:
+        asel = [{"k": "p", "f": via, "sel": [{"k": "v1", "f": "voice", "sel": []}, {"k": "v2", "f": "vol", "sel": []},
+                                             {"k": "t", "f": "voicet", "sel": []},
+                                             {"k": "ps", "f": "pals", "sel": [{"k": "w", "f": "voice", "sel": []}]},
+                                             {"k": "m", "f": "pal", "sel": [{"k": "u", "f": "vol", "sel": []}]}]}]
+        n = 0
+        for seq in itertools.product(SPECIES, repeat=3):
+            n += 1
+            evs = []
+            for i, sp in enumerate(seq):
+                other = SPECIES[1 - SPECIES.index(sp)]
+                evs.append({"id": i, "val": i, "fail": ["root/p/v2"] if (n + i) % 5 == 0 else [], "null": [], "len": {"root/p/ps": 2},
+                            "species": {"root/p": sp, "root/p/ps/0": other, "root/p/ps/1": sp, "root/p/m": other if i % 2 else sp}})
+            out.append({"kind": "stream", "refusal": None, "async_sub": bool(n % 2), "source": "iter" if n % 2 else "agen", "threads": False,
+                        "sel": copy.deepcopy(asel), "events": evs, "delays": [0, n % 3, 0, 0], "drive": DRIVES[n % len(DRIVES)]})
+    # every way of driving the stream x 0..3 events
+    for drive in DRIVES:
+        for nev in range(4):
+            for a in (False, True):
+                out.append({"kind": "stream", "refusal": None, "async_sub": a, "source": "agen" if a else "iter", "threads": False,
+                            "sel": copy.deepcopy(sel), "delays": [0] * (nev + 1), "drive": drive,
+                            "events": [{"id": i, "val": i, "fail": ["root/x"] if i == 1 else [], "null": [], "len": {}} for i in range(nev)]})
     ev0 = {"id": 0, "val": 1, "fail": [], "null": [], "len": {}}
     ev1 = {"id": 1, "val": 2, "fail": ["root/x"], "null": [], "len": {}}
 
@@ -850,7 +1005,7 @@ def run(ctx):
     cases = corpus_cases() + exhaustive_cases()
     ctx.extra["exhaustive_block_cases"] = len(cases)
     check_cases(ctx, cases)
-    n = ctx.n(1200, 9000)
+    n = ctx.n(1000, 8000)
     batch = []
     for i in range(n):
         if ctx.time_left() < 15:
